@@ -90,7 +90,7 @@ Definition voting_matches (r : raft) : list N :=
   map (fun kv => rm_match (snd kv)) (r_remotes r) ++ map (fun kv => rm_match (snd kv)) (r_witnesses r).
 
 Lemma voting_matches_length r : N.of_nat (length (voting_matches r)) = num_voting r.
-Proof. unfold voting_matches, num_voting, nlen. rewrite app_length, !map_length. lia. Qed.
+Proof. unfold voting_matches, num_voting, gen_numVotingMembers, nlen. rewrite app_length, !map_length. lia. Qed.
 
 (* tryCommit: whenever the leader advances its commit index, the new value is the term-checked
    match index that at least a quorum of the voting members (voters + witnesses; never a
@@ -107,7 +107,7 @@ Proof.
   set (ms := sort_n _). set (i := N.to_nat (num_voting r - quorum r)).
   assert (Hlen : length ms = length (voting_matches r)) by (unfold ms; apply sort_length).
   assert (Hq : quorum r <= num_voting r /\ 0 < quorum r).
-  { unfold quorum. split; [|lia]. destruct (N.eq_dec (num_voting r) 1) as [E|E]; [rewrite E; simpl; lia|].
+  { unfold quorum, gen_quorum. split; [|lia]. destruct (N.eq_dec (num_voting r) 1) as [E|E]; [rewrite E; simpl; lia|].
     pose proof (N.div_mod (num_voting r) 2). assert (num_voting r mod 2 < 2) by (apply N.mod_lt; lia). lia. }
   assert (Hi : (i < length ms)%nat).
   { rewrite Hlen. pose proof (voting_matches_length r). unfold i. lia. }
